@@ -21,11 +21,13 @@ READY = True
 RULE = ("machine + game-mode configuration drawn per case (1-3 balls per game, up to 4 players, two persisted counters "
         "with random start/complete/direction/interval/reset_on_complete/disable_on_complete/start_enabled, one persisted "
         "accrual, two shots with 2-4 profile states, loop or not, variable_player add/set of int, str and float "
-        "variables incl. no-op sets and a first assignment of 0); histories of 8-45 operations from one PRNG: start "
+        "variables incl. no-op sets and a first assignment of 0); histories of 10-60 operations from one PRNG: start "
         "button (new game / add player, also when refused), scoring and progress events (also outside a game), drains, "
         "extra balls, end_game, new game.  non-trivial = at least two players had a turn each, a hand-over happened "
         "after their persisted device states had diverged, and a player came back to a second ball; distinct by case "
-        "hash")
+        "hash.  suite 'ext' (validation only, not fed to the model): the same games with two achievements (all "
+        "control events, random restart_on_next_ball_when_started / enable_on_next_ball_when_enabled / start_enabled) and "
+        "a running timer added to the game mode; non-trivial additionally needs >= 3 distinct achievement readings")
 TRUSTED_BASE = [
     "Coq 8.16.1 kernel (coqc), vm_compute for evaluating the model in the correspondence run; no native_compute",
     "axioms: none (every Print Assumptions is 'Closed under the global context')",
@@ -39,13 +41,17 @@ TRUSTED_BASE = [
     "but modelled only through their effect on player variables (which player a handler is bound to, order of posts)",
 ]
 ASSUMPTIONS = [
-    "every MPF event of the alphabet drives at most one action of one device (plus variable_player entries on other "
-    "variables); variable_player never writes the built-in variables index/number/ball or device state variables",
+    "every MPF event of the alphabet drives at most one action per device; one event may drive several devices "
+    "(ev_c2 counts counter c2 and advances shot sh2; ev_c1 counts c1 and scores) but they write different variables, "
+    "so handler order inside one dispatch does not matter; variable_player never writes the built-in variables "
+    "index/number/ball or device state variables",
     "variable_player 'add' is only used on numeric variables (adding to a str variable raises TypeError in MPF)",
     "floats stay on the 1/8 grid (exact binary arithmetic); extra_balls is only ever incremented by the config",
     "game modes stop at ball end (MPF rejects game_mode + stop_on_ball_end: false at config time)",
-    "not modelled: achievements, timers (tick variable is re-initialised at every mode start by design), sequences, "
-    "shot groups, shots with persist_enable: false, non-persisted logic blocks, variable_player 'player:' targeting",
+    "not modelled in Coq: achievements and timers (their per-player isolation, configured restore and event chains are "
+    "validated by the oracle-only suite 'ext'; a timer's tick variable is re-initialised at every mode start by "
+    "design), sequences, shot groups, shots with persist_enable: false, non-persisted logic blocks, logic_block_timeout, "
+    "variable_player 'player:' targeting",
 ]
 DESIGN_REF = "DESIGN.md section 3, C11"
 TECHNIQUE = "Coq proof over an executable Gallina model + differential correspondence (vm_compute) + direct trace oracle"
@@ -59,7 +65,8 @@ LEVEL_TEXT = ("Machine-checked proof (Coq) over an executable model of Player.__
               "working tree by running both on the same generated histories on every run.")
 LEVEL_NOTE = ("Trusted: Coq kernel + vm_compute; no axioms.  Model hand-written; the correspondence run validates it "
               "against a real game on every run.  Event dispatch order between different variables is not compared "
-              "(events are compared per player and variable, in order).")
+              "(events are compared per player and variable, in order).  Achievements and timers are covered by the "
+              "direct oracle only (suite 'ext'), not by the proof.")
 
 # ------------------------------------------------------------------------------------------------
 # name tables (shared with Model.v: n_index .. n_restart_modes)
@@ -90,6 +97,8 @@ for _c in ("sh1", "sh2"):
 for _n in ("ev_score", "ev_str1", "ev_str2", "ev_strpv", "ev_set", "ev_addpv", "ev_xb", "ev_float", "ev_two", "ev_nothing"):
     _ev(_n)
 POSTABLE = [e for e in EVENTS if e.startswith("ev_")]
+# coincidence: the event that counts counter c2 also advances shot sh2 (two devices, one dispatch)
+ADV_EVENT = {"sh1": "ev_sh1_adv", "sh2": "ev_c2"}
 PROGRESS = ["ev_c1", "ev_c1", "ev_c2", "ev_a1_0", "ev_a1_1", "ev_a1_2", "ev_sh1", "ev_sh2", "ev_sh1_adv", "ev_score"]
 
 
@@ -106,7 +115,7 @@ def gen_cfg(rng):
     def shot():
         return {"nstates": rng.choice([2, 3, 4]), "loop": rng.random() < 0.4, "start_enabled": rng.random() < 0.7}
     return {
-        "bpg": rng.choice([1, 2, 2, 3]), "maxp": rng.choice([1, 2, 3, 4, 4]),
+        "bpg": rng.choice([1, 2, 2, 3]), "maxp": rng.choice([1, 2, 3, 4, 4, 4]),
         "pv_int": rng.choice([0, 5, -3]), "pv_str": rng.choice(["", "abc", "xy"]),
         "c1": counter(), "c2": counter(),
         "a1": {"roc": rng.random() < 0.5, "doc": rng.random() < 0.5, "start_enabled": rng.random() < 0.8},
@@ -118,26 +127,61 @@ def gen_cfg(rng):
 
 
 def gen(rng, tier, i):
+    """histories; a rough tracker of the game (players, balls, extra balls) only steers the probabilities"""
     cfg = gen_cfg(rng)
-    n = rng.choice([8, 15, 25, 35, 45])
-    ops = [["start"]]
-    for _ in range(rng.choice([0, 0, 1, 1, 2, 3])):
-        ops.append(["start"])
+    n = rng.choice([10, 20, 30, 45, 60])
+    ops = []
+    g = {"in": False}
+
+    def emit(op):
+        ops.append(op)
+        if op[0] == "start":
+            if not g["in"]:
+                g.update({"in": True, "balls": [1], "cur": 0, "xb": [0], "ending": False})
+            elif not g["ending"] and len(g["balls"]) < cfg["maxp"] and g["balls"][g["cur"]] <= 1:
+                g["balls"].append(0)
+                g["xb"].append(0)
+        elif not g["in"]:
+            return
+        elif op == ["post", "ev_xb"]:
+            g["xb"][g["cur"]] += 1
+        elif op[0] in ("drain", "end_game"):
+            if op[0] == "end_game":
+                g["ending"] = True
+            c = g["cur"]
+            if g["xb"][c] > 0:
+                g["xb"][c] -= 1
+            elif g["ending"] or (g["balls"][c] >= cfg["bpg"] and c == len(g["balls"]) - 1):
+                g["in"] = False
+            else:
+                g["cur"] = (c + 1) % len(g["balls"])
+                g["balls"][g["cur"]] += 1
+
+    emit(["start"])
+    for _ in range(rng.choice([0, 1, 1, 2, 2, 3])):
+        emit(["start"])
     while len(ops) < n:
         r = rng.random()
-        if r < 0.62:
-            e = rng.choice(PROGRESS) if rng.random() < 0.6 else rng.choice(POSTABLE)
-            ops.append(["post", e])
-            if rng.random() < 0.25:
-                ops.append(["post", e])
-        elif r < 0.84:
-            ops.append(["drain"])
-        elif r < 0.93:
-            ops.append(["start"])
-        elif r < 0.96:
-            ops.append(["end_game"])
+        if not g["in"]:
+            emit(["start"] if r < 0.7 else ["post", rng.choice(POSTABLE)])
+            if ops[-1] == ["start"] and rng.random() < 0.7:
+                for _ in range(rng.choice([1, 1, 2, 3])):
+                    emit(["start"])
+            continue
+        pd = 0.12 + 0.04 * len(g["balls"])
+        if r < pd:
+            emit(["drain"])
+        elif r < pd + 0.05:
+            emit(["start"])
+        elif r < pd + 0.075:
+            emit(["end_game"])
+        elif r < pd + 0.115:
+            emit(["post", "ev_xb"])
         else:
-            ops.append(["post", "ev_xb"])
+            e = rng.choice(PROGRESS) if rng.random() < 0.6 else rng.choice(POSTABLE)
+            emit(["post", e])
+            if rng.random() < 0.25:
+                emit(["post", e])
     return {"cfg": cfg, "ops": ops}
 
 
@@ -165,7 +209,7 @@ def build_config(c):
     def shot(n):
         k = c[n]
         return {"hit_events": "ev_%s" % n, "enable_events": "ev_%s_en" % n, "disable_events": "ev_%s_dis" % n,
-                "reset_events": "ev_%s_reset" % n, "advance_events": "ev_%s_adv" % n,
+                "reset_events": "ev_%s_reset" % n, "advance_events": ADV_EVENT[n],
                 "restart_events": "ev_%s_restart" % n, "profile": "prof_%s" % n, "start_enabled": k["start_enabled"]}
 
     def profile(n):
@@ -198,7 +242,46 @@ def build_config(c):
             "logicblock_a1_complete": {"bonus": 500, "score": 50},
         },
     }
+    if c.get("ext"):
+        x = c["ext"]
+        m1["achievements"] = {}
+        for n in ("ach1", "ach2"):
+            k = x[n]
+            d = {"enable_events": "ev_%s_en" % n, "start_events": "ev_%s_start" % n, "complete_events": "ev_%s_done" % n,
+                 "stop_events": "ev_%s_stop" % n, "disable_events": "ev_%s_dis" % n, "reset_events": "ev_%s_reset" % n,
+                 "select_events": "ev_%s_sel" % n, "unselect_events": "ev_%s_unsel" % n,
+                 "restart_on_next_ball_when_started": k["restart_started"],
+                 "enable_on_next_ball_when_enabled": k["keep_enabled"],
+                 "restart_after_stop_possible": k["restart_after_stop"]}
+            if k["start_enabled"] is not None:
+                d["start_enabled"] = k["start_enabled"]
+            m1["achievements"][n] = d
+        m1["timers"] = {"t1": {"start_value": x["t_start"], "end_value": 100000, "direction": "up", "start_running": True,
+                               "tick_interval": "750ms",
+                               "control_events": [{"event": "ev_t_add", "action": "add", "value": 10},
+                                                  {"event": "ev_t_stop", "action": "stop"},
+                                                  {"event": "ev_t_start", "action": "start"}]}}
     return machine, {"m1": m1}
+
+
+ACH_EVENTS = ["ev_%s_%s" % (n, s) for n in ("ach1", "ach2")
+              for s in ("en", "start", "done", "stop", "dis", "reset", "sel", "unsel")] + ["ev_t_add", "ev_t_stop", "ev_t_start"]
+
+
+def gen_ext(rng, tier, i):
+    case = gen(rng, tier, i)
+    case["cfg"]["ext"] = {
+        "ach1": {"restart_started": False, "keep_enabled": True, "restart_after_stop": True, "start_enabled": None},
+        "ach2": {"restart_started": rng.random() < 0.6, "keep_enabled": rng.random() < 0.5,
+                 "restart_after_stop": rng.random() < 0.5, "start_enabled": rng.choice([True, False, None])},
+        "t_start": rng.choice([0, 5])}
+    ops = []
+    for op in case["ops"]:
+        ops.append(op)
+        if op[0] == "post" and rng.random() < 0.6:
+            ops.append(["post", rng.choice(ACH_EVENTS)])
+    case["ops"] = ops
+    return case
 
 
 def vp_table(c):
@@ -246,7 +329,12 @@ def tagv(v):
         else:
             lv = ["?", repr(val)]
         return ["lb", bool(v.enabled), bool(v.completed), lv, [type(v.enabled).__name__, type(v.completed).__name__]]
-    if isinstance(v, (list, dict)):
+    if isinstance(v, dict):
+        try:
+            return ["d", json.loads(json.dumps(sorted(v.items())))]
+        except (TypeError, ValueError):
+            return ["o"]
+    if isinstance(v, list):
         return ["o"]
     return ["?", repr(v)[:60]]
 
@@ -265,7 +353,7 @@ def run_impl(case):
             evs.append([var, tagv(kwargs.get("value")), tagv(kwargs.get("prev_value")), tagv(kwargs.get("change")),
                         tagv(kwargs.get("player_num"))])
         registered = set()
-        for v in VARS:
+        for v in list(VARS) + ["m1_t1_tick", "achievements"]:
             m.events.add_handler("player_" + v, rec, priority=10 ** 7, var=v)
             registered.add(v)
 
@@ -300,7 +388,10 @@ def run_impl(case):
                 d = m.shots[n]
                 reads.append(tagv(d.state))
                 reads.append(tagv(d.enabled))
-            return {"ingame": bool(g), "cur": cur, "players": players, "reads": reads,
+            xreads = None
+            if case["cfg"].get("ext"):
+                xreads = [[m.achievements[n].state, bool(m.achievements[n].selected)] for n in ("ach1", "ach2")]
+            return {"ingame": bool(g), "cur": cur, "players": players, "reads": reads, "xreads": xreads,
                     "mode": bool(m.modes["m1"].active)}
 
         steps = []
@@ -363,7 +454,7 @@ def cval(t):
         else:
             raise ValueError(t)
         return "(VLB %s %s %s)" % (blit(t[1]), blit(t[2]), v)
-    if k == "o":
+    if k in ("o", "d"):
         return "VObj"
     raise ValueError(t)
 
@@ -396,7 +487,7 @@ def ccfg_term(c):
         k = c[n]
         return "(mkS %d %d %d %d %d %d %d %d %d %s %s)" % (
             VARS["shot_" + n], VARS["shot_%s_enabled" % n], EVENTS["ev_" + n], EVENTS["ev_%s_en" % n],
-            EVENTS["ev_%s_dis" % n], EVENTS["ev_%s_reset" % n], EVENTS["ev_%s_adv" % n], EVENTS["ev_%s_restart" % n],
+            EVENTS["ev_%s_dis" % n], EVENTS["ev_%s_reset" % n], EVENTS[ADV_EVENT[n]], EVENTS["ev_%s_restart" % n],
             k["nstates"], blit(k["loop"]), blit(k["start_enabled"]))
     a = c["a1"]
     acc = "(mkA %d %s %d %d %d %d %d %s %s %s)" % (
@@ -517,7 +608,8 @@ def fresh_store(c, i):
             "score": ["i", 0], "restart_modes_on_next_ball": ["o"]}
 
 
-DEVICE_VARS = ("c1_state", "c2_state", "a1_state", "shot_sh1", "shot_sh1_enabled", "shot_sh2", "shot_sh2_enabled")
+DEVICE_VARS = ("c1_state", "c2_state", "a1_state", "shot_sh1", "shot_sh1_enabled", "shot_sh2", "shot_sh2_enabled",
+               "achievements", "m1_t1_tick")
 
 
 def reads_from_store(store):
@@ -613,6 +705,8 @@ def oracle(case, out):
                 fails.append({"sig": "player-lost", "what": "%s: player list shrank" % opdesc})
             # ---- frame: players whose turn it is not are untouched ---------------------------------------
             touched_ok = {prev["cur"]} if op[0] == "post" else {prev["cur"], st["cur"]} if op[0] in ("drain", "end_game") else set()
+            if c.get("ext"):
+                touched_ok.add(prev["cur"])      # a running timer ticks for the current player while time passes
             for j in range(min(len(pp), len(ap))):
                 if j not in touched_ok and pp[j] != ap[j]:
                     fails.append({"sig": "leak-other-player",
@@ -671,6 +765,76 @@ def oracle(case, out):
     return res
 
 
+def ach_initial(k):
+    if k["start_enabled"] is True:
+        return "enabled"
+    if k["start_enabled"] is False:
+        return "disabled"
+    return "disabled"          # enable_events are configured
+
+
+def ach_restored(k, pair):
+    """Achievement._restore_state: what the configuration says a carried-over state becomes at the next ball"""
+    state, sel = pair
+    if state == "started" and not k["restart_started"]:
+        state = "stopped"
+    elif state == "enabled" and not k["keep_enabled"]:
+        state = "disabled"
+    return [state, sel]
+
+
+def oracle_ext(case, out):
+    """frame / events / logic-block and shot restore as in oracle(); in addition achievements (state, selected) are
+    per player, restored as configured at the player's next ball and initial on a first ball; the timer tick variable
+    is covered by the frame and event-chain checks (it restarts at every ball by design)"""
+    fails = oracle(case, out)
+    x = case["cfg"]["ext"]
+    prev = {"ingame": False, "cur": 0, "players": [], "xreads": None, "mode": False}
+    last = {}
+    for k, st in enumerate(out["steps"]):
+        op = case["ops"][k]
+        opdesc = "op %d %s" % (k, "/".join(op))
+        new_game = st["ingame"] and not prev["ingame"]
+        handover = op[0] in ("drain", "end_game") and prev["ingame"] and prev["mode"]
+        if handover:
+            last[prev["cur"]] = prev["xreads"]
+        if new_game:
+            last = {}
+        if st["ingame"] and (new_game or handover) and st["players"]:
+            i = st["cur"]
+            if i in last:
+                want = [ach_restored(x[n], p) for n, p in zip(("ach1", "ach2"), last[i])]
+                sig = "achievement-restore-mismatch"
+            else:
+                want = [[ach_initial(x[n]), False] for n in ("ach1", "ach2")]
+                sig = "achievement-first-ball-not-initial"
+            if st["xreads"] != want:
+                fails.append({"sig": sig, "what": "%s: player %d's ball starts with achievements %r, expected %r" %
+                              (opdesc, i + 1, st["xreads"], want)})
+        if st["ingame"] and st["mode"] and st["players"] and st["cur"] < len(st["players"]):
+            d = dict(st["players"][st["cur"]]).get("achievements")
+            held = None if not d or d[0] != "d" else [dict(d[1]).get(n) for n in ("ach1", "ach2")]
+            if held != st["xreads"]:
+                fails.append({"sig": "achievement-bound-to-wrong-player",
+                              "what": "%s: achievements read %r, current player %d holds %r" %
+                                      (opdesc, st["xreads"], st["cur"] + 1, held)})
+        prev = st
+    seen, res = set(), []
+    for f in fails:
+        if f["sig"] not in seen:
+            seen.add(f["sig"])
+            res.append(f)
+    return res
+
+
+def nontrivial_ext(case, out):
+    changed = set()
+    for st in out["steps"]:
+        if st["xreads"]:
+            changed.add(json.dumps(st["xreads"]))
+    return nontrivial(case, out) and len(changed) >= 3
+
+
 # ------------------------------------------------------------------------------------------------
 def shrink(case):
     ops = case["ops"]
@@ -702,10 +866,26 @@ def nontrivial(case, out):
 
 def describe(case):
     n = len(case["ops"])
-    return "ops=%s maxp=%d bpg=%d" % ("<=15" if n <= 15 else "<=30" if n <= 30 else ">30", case["cfg"]["maxp"], case["cfg"]["bpg"])
+    return "ops=%s maxp=%d bpg=%d" % ("<=20" if n <= 20 else "<=45" if n <= 45 else ">45", case["cfg"]["maxp"], case["cfg"]["bpg"])
+
+
+def widened_search(seed):
+    """oracle-only search with a different seed and longer histories (used when a proof or the tie breaks)"""
+    import random
+    rng = random.Random(seed * 7919 + 11)
+    for i in range(400):
+        case = gen(rng, "thorough", i)
+        out = run_impl(case)
+        fails = oracle(case, out)
+        if fails:
+            return {"sig": fails[0]["sig"], "what": fails[0]["what"], "case": case, "suite": "game"}
+    return None
 
 
 SUITES = [
     Suite("game", gen, run_impl, HDR, coq_case, oracle, shrink, nontrivial,
           {"quick": 240, "thorough": 6000}, describe=describe, shard=30, case_timeout=120),
+    # validation only (no model): the same game with two achievements and a running timer added to the mode
+    Suite("ext", gen_ext, run_impl, None, None, oracle_ext, shrink, nontrivial_ext,
+          {"quick": 120, "thorough": 3000}, describe=describe, case_timeout=120),
 ]
